@@ -69,6 +69,9 @@ def judge(path: str, password, supplied_password: bool, workdir: str):
                     out.append(("size", f"{m['name']!r}: list() says {i.uncompressed}, member has {len(data)} bytes"))
                 if i.crc32 is not None and i.crc32 != (zlib.crc32(data) & 0xFFFFFFFF):
                     out.append(("crc", f"{m['name']!r}: list() says {i.crc32:#x}, bytes have {zlib.crc32(data) & 0xFFFFFFFF:#x}"))
+                # the archive records a CRC for this member (its own, or its folder's when it is the folder's only stream): it is reported
+                if i.crc32 is None and m.get("crc") is not None:
+                    out.append(("crc-not-reported", f"{m['name']!r}: the archive records CRC {m['crc']:#x} for it, list() says None"))
             else:
                 if i.uncompressed not in (0, None):
                     out.append(("size", f"{m['name']!r}: empty entry listed with size {i.uncompressed}"))
